@@ -172,6 +172,9 @@ def _ops(i, ds, ds2, ds3=None):
         if "y" in ds4.dims:
             ds4.axes["y"][:] = [2.0, 6.0]
         return (lambda: A.da.concatenate_ds([ds, ds4], axis=d)), (lambda k, v: A.da.concatenate([v, ds4[k]], axis=d))
+    if o == "stack_ds_align_sort_same":
+        return (lambda: A.da.stack_ds([ds, ds2], axis="k", keys=[0, 1], align=True, sort=True)), \
+               (lambda k, v: A.da.stack([v, ds2[k]], axis="k", keys=[0, 1], align=True, sort=True))
     if o == "stack_ds":
         return (lambda: A.da.stack_ds([ds, ds2], axis="k", keys=[0, 1])), (lambda k, v: A.da.stack([v, ds2[k]], axis="k", keys=[0, 1]))
     if o == "concatenate_ds":
@@ -188,7 +191,7 @@ def replay(scn):
     try:
         if o.startswith("concatenate_ds") and (not i["d"] or not all(i["d"] in v for v in i["vars"])):
             return dict(violations=[], calls=0)
-        if o in ("stack_ds_align",) and len(set(tuple(sorted(v)) for v in i["vars"])) > 1:
+        if o in ("stack_ds_align", "stack_ds_align_sort_same") and len(set(tuple(sorted(v)) for v in i["vars"])) > 1:
             return dict(violations=[], calls=0)      # align(strict=True) wants every dataset dimension in every variable
         if o == "construct_misaligned":
             return _replay_construct(scn)
